@@ -15,6 +15,16 @@ pub assume_specification<T, E, F: From<E>>[ <Poll<Option<Result<T, F>>> as core:
     x: Result<core::convert::Infallible, E>) -> (r: Poll<Option<Result<T, F>>>)
     ensures x matches Err(e) ==> (r matches Poll::Ready(Some(Err(f))) && call_ensures(<F as From<E>>::from, (e,), f));
 
+// `?` applied directly to a Poll<Result<T, E>> (core's `impl Try for Poll<Result<T, E>>`): an error leaves the function,
+// Ready(Ok(x)) continues as Ready(x), Pending continues as Pending
+pub assume_specification<T, E>[ <Poll<Result<T, E>> as core::ops::Try>::branch ](p: Poll<Result<T, E>>)
+    -> (r: core::ops::ControlFlow<<Poll<Result<T, E>> as core::ops::Try>::Residual, <Poll<Result<T, E>> as core::ops::Try>::Output>)
+    ensures match p {
+        Poll::Ready(Ok(x)) => r == core::ops::ControlFlow::<Result<core::convert::Infallible, E>, Poll<T>>::Continue(Poll::Ready(x)),
+        Poll::Ready(Err(e)) => r == core::ops::ControlFlow::<Result<core::convert::Infallible, E>, Poll<T>>::Break(Err(e)),
+        Poll::Pending => r == core::ops::ControlFlow::<Result<core::convert::Infallible, E>, Poll<T>>::Continue(Poll::Pending),
+    };
+
 // core's reflexive conversion `impl<T> From<T> for T`
 pub assume_specification<T>[ <T as From<T>>::from ](t: T) -> (r: T)
     ensures r == t;
